@@ -3,3 +3,6 @@ import ZenoModel.Model.Expr
 import ZenoModel.Model.Seq
 import ZenoModel.Model.SubMerge
 import ZenoModel.Model.Store
+import ZenoModel.Model.Auth
+import ZenoModel.Model.Sort
+import ZenoModel.Model.Codec
